@@ -25,6 +25,26 @@
 //!            | 'h' ':' p ':' q ':' ksize ':' registers(hex)
 //!              mol = dna|protein|dayhoff|hp|x<hex> ; abunds = '~' | list ; md5 = ('c'|'n') hex(string)
 //!              (c = cached in the Mutex, n = cache empty and md5sum() reports this value)
+//!            | ('v'|'t') ':' …the same nine fields… ':' life
+//!              a LIVED sketch: it is not assembled from the fields but produced by running `life` on the real
+//!              API; the nine fields are the observation of the result (container, accessors, md5sum()) that
+//!              `gen` made and that `exec` re-makes and compares (`bad-state` when it differs).  ksize, seed
+//!              and mol of the fields are the creation parameters.
+//!   life    := start ('.' op)*
+//!   start   := ('V'|'T') ('0'|'1') 's' scaled 'n' num      KmerMinHash / KmerMinHashBTree ::new(scaled, ksize, hf, seed, track, num)
+//!   op      := 'a' list            add_many                 | 'w' h 'x' a (',' h 'x' a)*   add_many_with_abund
+//!            | 'e' h 'x' a         set_hash_with_abundance (vector only)
+//!            | 'r' list            remove_many              | 'c'  clear
+//!            | 'm'                 md5sum()                 | 'k'  replace by its clone()
+//!            | 'g' '(' life ')'    merge(other)             | 'f' '(' life ')'  add_from(other)
+//!            | 'R' '(' life ')'    remove_from(other)       | 'i' '(' life ')'  inflate(other) (vector only)
+//!            | 'u'                 disable_abundance()      | 't'  enable_abundance()
+//!            | 'l'                 saved inside a Signature (to_writer) and loaded back (from_reader)
+//!            | 'j'                 serde_json::to_vec / from_slice of the sketch type itself (container kept)
+//!            | 'x'                 From<KmerMinHashBTree> for KmerMinHash / From<KmerMinHash> for KmerMinHashBTree
+//!            | 'd' scaled          downsample_scaled
+//!              (`other` is brought to the container type of the receiver with the From impls; errors of
+//!              merge / inflate / enable_abundance / downsample_scaled leave the sketch as it is)
 use sourmash::encodings::HashFunctions;
 use sourmash::ffi::signature::{signatures_load_buffer, signatures_save_buffer, SourmashSignature};
 use sourmash::ffi::utils::ForeignObject;
@@ -63,6 +83,7 @@ struct Mh {
     abunds: Option<Vec<u64>>,
     md5: String,
     cached: bool,
+    life: Option<String>,
 }
 
 #[derive(Clone, Debug)]
@@ -144,7 +165,7 @@ fn hf_mol(h: &HashFunctions) -> Mol {
 fn fmt_sk(s: &Sk) -> String {
     match s {
         Sk::Mh(m) => format!(
-            "{}:{}:{}:{}:{}:{}:{}:{}:{}{}",
+            "{}:{}:{}:{}:{}:{}:{}:{}:{}{}{}",
             m.kind,
             m.num,
             m.ksize,
@@ -157,7 +178,11 @@ fn fmt_sk(s: &Sk) -> String {
                 Some(a) => show_nats(a.iter().copied()),
             },
             if m.cached { 'c' } else { 'n' },
-            hs(&m.md5)
+            hs(&m.md5),
+            match &m.life {
+                None => String::new(),
+                Some(l) => format!(":{}", l),
+            }
         ),
         Sk::Hll { p, q, ksize, regs } => format!("h:{}:{}:{}:{}", p, q, ksize, hex(regs)),
     }
@@ -183,6 +208,7 @@ fn parse_sk(s: &str) -> Sk {
         abunds: if f[7] == "~" { None } else { Some(parse_nats(f[7])) },
         cached: f[8].starts_with('c'),
         md5: uhs(&f[8][1..]),
+        life: f.get(9).map(|x| x.to_string()),
     })
 }
 fn fmt_sig(s: &Sg) -> String {
@@ -232,6 +258,7 @@ fn hide(mut l: Vec<Sg>) -> Vec<Sg> {
             if let Sk::Mh(m) = k {
                 m.kind = 'm';
                 m.cached = true;
+                m.life = None;
             }
         }
     }
@@ -242,6 +269,7 @@ fn hide(mut l: Vec<Sg>) -> Vec<Sg> {
 
 fn build_sk(s: &Sk) -> Sketch {
     match s {
+        Sk::Mh(Mh { life: Some(l), ksize, seed, mol, .. }) => run_life(l, *ksize, *seed, mol).into_sketch(),
         Sk::Mh(m) if m.kind != 't' => Sketch::MinHash(
             KmerMinHash::builder()
                 .num(m.num)
@@ -278,6 +306,259 @@ fn build_sk(s: &Sk) -> Sketch {
             b.extend_from_slice(regs);
             Sketch::HyperLogLog(HyperLogLog::from_reader(&b[..]).unwrap())
         }
+    }
+}
+
+
+// ------------------------------------------------------------------------------------------ lived sketches
+
+enum Live {
+    V(KmerMinHash),
+    T(KmerMinHashBTree),
+}
+
+impl Live {
+    fn into_sketch(self) -> Sketch {
+        match self {
+            Live::V(m) => Sketch::MinHash(m),
+            Live::T(m) => Sketch::LargeMinHash(m),
+        }
+    }
+    fn is_vec(&self) -> bool {
+        matches!(self, Live::V(_))
+    }
+    /// the other container type, through the crate's own `From` impls
+    fn convert(self) -> Live {
+        match self {
+            Live::V(m) => Live::T(KmerMinHashBTree::from(m)),
+            Live::T(m) => Live::V(KmerMinHash::from(m)),
+        }
+    }
+}
+
+struct LifeParser<'a> {
+    s: &'a [u8],
+    i: usize,
+}
+impl<'a> LifeParser<'a> {
+    fn peek(&self) -> Option<u8> {
+        self.s.get(self.i).copied()
+    }
+    fn ch(&mut self) -> u8 {
+        let c = self.s[self.i];
+        self.i += 1;
+        c
+    }
+    fn expect(&mut self, c: u8) {
+        assert_eq!(self.ch(), c, "life syntax at byte {}", self.i - 1);
+    }
+    fn num(&mut self) -> u64 {
+        let st = self.i;
+        while matches!(self.peek(), Some(b'0'..=b'9')) {
+            self.i += 1;
+        }
+        std::str::from_utf8(&self.s[st..self.i]).unwrap().parse().unwrap()
+    }
+    fn list(&mut self) -> Vec<u64> {
+        let mut v = vec![];
+        if self.peek() == Some(b'-') {
+            self.i += 1;
+            return v;
+        }
+        loop {
+            v.push(self.num());
+            if self.peek() == Some(b',') {
+                self.i += 1;
+            } else {
+                return v;
+            }
+        }
+    }
+    fn pairs(&mut self) -> Vec<(u64, u64)> {
+        let mut v = vec![];
+        loop {
+            let h = self.num();
+            self.expect(b'x');
+            let a = self.num();
+            v.push((h, a));
+            if self.peek() == Some(b',') {
+                self.i += 1;
+            } else {
+                return v;
+            }
+        }
+    }
+}
+
+/// save inside a signature with the real writer, load with the real reader
+fn via_signature(sk: Sketch) -> Live {
+    let sig = Signature::builder()
+        .hash_function("0.murmur64")
+        .filename(Some("life.fa".into()))
+        .name(None)
+        .signatures(vec![sk])
+        .build();
+    let mut b = vec![];
+    sig.to_writer(&mut b).unwrap();
+    let mut l = Signature::from_reader(&b[..]).unwrap();
+    match l.swap_remove(0).sketches().swap_remove(0) {
+        Sketch::MinHash(m) => Live::V(m),
+        Sketch::LargeMinHash(m) => Live::T(m),
+        _ => panic!("sketch came back as HyperLogLog"),
+    }
+}
+
+fn life_steps(p: &mut LifeParser, ksize: u32, seed: u64, mol: &Mol) -> Live {
+    let kind = p.ch();
+    let track = p.ch() == b'1';
+    p.expect(b's');
+    let scaled = p.num();
+    p.expect(b'n');
+    let num = p.num() as u32;
+    let mut cur = match kind {
+        b'V' => Live::V(KmerMinHash::new(scaled, ksize, mol_hf(mol), seed, track, num)),
+        b'T' => Live::T(KmerMinHashBTree::new(scaled, ksize, mol_hf(mol), seed, track, num)),
+        _ => panic!("life syntax: container"),
+    };
+    while p.peek() == Some(b'.') {
+        p.i += 1;
+        let op = p.ch();
+        // the operand sketch of a binary op, in the receiver's container type
+        let operand = |p: &mut LifeParser, vec: bool| -> Live {
+            p.expect(b'(');
+            let o = life_steps(p, ksize, seed, mol);
+            p.expect(b')');
+            if o.is_vec() == vec { o } else { o.convert() }
+        };
+        match op {
+            b'a' => {
+                let l = p.list();
+                match &mut cur {
+                    Live::V(m) => m.add_many(&l).unwrap(),
+                    Live::T(m) => m.add_many(&l).unwrap(),
+                }
+            }
+            b'w' => {
+                let l = p.pairs();
+                match &mut cur {
+                    Live::V(m) => m.add_many_with_abund(&l).unwrap(),
+                    Live::T(m) => m.add_many_with_abund(&l).unwrap(),
+                }
+            }
+            b'e' => {
+                let l = p.pairs();
+                if let Live::V(m) = &mut cur {
+                    for (h, a) in l {
+                        m.set_hash_with_abundance(h, a);
+                    }
+                }
+            }
+            b'r' => {
+                let l = p.list();
+                match &mut cur {
+                    Live::V(m) => m.remove_many(l).unwrap(),
+                    Live::T(m) => m.remove_many(l).unwrap(),
+                }
+            }
+            b'c' => match &mut cur {
+                Live::V(m) => m.clear(),
+                Live::T(m) => m.clear(),
+            },
+            b'm' => {
+                match &cur {
+                    Live::V(m) => m.md5sum(),
+                    Live::T(m) => m.md5sum(),
+                };
+            }
+            b'k' => {
+                cur = match &cur {
+                    Live::V(m) => Live::V(m.clone()),
+                    Live::T(m) => Live::T(m.clone()),
+                }
+            }
+            b'g' | b'f' | b'R' | b'i' => {
+                let o = operand(p, cur.is_vec());
+                match (&mut cur, &o) {
+                    (Live::V(m), Live::V(o)) => match op {
+                        b'g' => {
+                            let _ = m.merge(o);
+                        }
+                        b'f' => m.add_from(o).unwrap(),
+                        b'R' => m.remove_from(o).unwrap(),
+                        _ => {
+                            let _ = m.inflate(o);
+                        }
+                    },
+                    (Live::T(m), Live::T(o)) => match op {
+                        b'g' => {
+                            let _ = m.merge(o);
+                        }
+                        b'f' => m.add_from(o).unwrap(),
+                        b'R' => m.remove_many(o.mins()).unwrap(),
+                        _ => {}
+                    },
+                    _ => unreachable!(),
+                }
+            }
+            b'u' => match &mut cur {
+                Live::V(m) => m.disable_abundance(),
+                Live::T(m) => m.disable_abundance(),
+            },
+            b't' => {
+                let _ = match &mut cur {
+                    Live::V(m) => m.enable_abundance(),
+                    Live::T(m) => m.enable_abundance(),
+                };
+            }
+            b'l' => cur = via_signature(cur.into_sketch()),
+            b'j' => {
+                cur = match &cur {
+                    Live::V(m) => Live::V(serde_json::from_slice(&serde_json::to_vec(m).unwrap()).unwrap()),
+                    Live::T(m) => Live::T(serde_json::from_slice(&serde_json::to_vec(m).unwrap()).unwrap()),
+                }
+            }
+            b'x' => cur = cur.convert(),
+            b'd' => {
+                let sc = p.num();
+                cur = match cur {
+                    Live::V(m) => {
+                        let keep = m.clone();
+                        Live::V(m.downsample_scaled(sc).unwrap_or(keep))
+                    }
+                    Live::T(m) => {
+                        let keep = m.clone();
+                        Live::T(m.downsample_scaled(sc).unwrap_or(keep))
+                    }
+                }
+            }
+            _ => panic!("life syntax: op {}", op as char),
+        }
+    }
+    cur
+}
+
+fn run_life(life: &str, ksize: u32, seed: u64, mol: &Mol) -> Live {
+    let mut p = LifeParser { s: life.as_bytes(), i: 0 };
+    let l = life_steps(&mut p, ksize, seed, mol);
+    assert_eq!(p.i, p.s.len(), "life syntax: trailing text");
+    l
+}
+
+/// a lived sketch must be, after the real save, exactly what the request line says it is
+fn same_obs(spec: &Mh, real: &Sketch) -> bool {
+    match observe_sk(real) {
+        Sk::Mh(o) => {
+            o.kind == spec.kind
+                && o.num == spec.num
+                && o.ksize == spec.ksize
+                && o.seed == spec.seed
+                && o.max_hash == spec.max_hash
+                && o.mol == spec.mol
+                && o.mins == spec.mins
+                && o.abunds == spec.abunds
+                && o.md5 == spec.md5
+        }
+        _ => false,
     }
 }
 
@@ -351,6 +632,7 @@ fn observe_sk(s: &Sketch) -> Sk {
             abunds: m.abunds(),
             md5: m.md5sum(),
             cached: true,
+            life: None,
         }),
         Sketch::LargeMinHash(m) => Sk::Mh(Mh {
             kind: 't',
@@ -363,6 +645,7 @@ fn observe_sk(s: &Sketch) -> Sk {
             abunds: m.abunds(),
             md5: m.md5sum(),
             cached: true,
+            life: None,
         }),
         Sketch::HyperLogLog(h) => {
             let mut b = vec![];
@@ -412,11 +695,30 @@ fn observe_all(l: &[Signature]) -> Vec<Sg> {
     l.iter().map(observe).collect()
 }
 
-/// after an op: every `n` (uncached) sketch must report exactly the md5 the request line says
+/// what the sketches of the built signatures really look like (reported next to `bad-state`)
+fn actual_state(sigs: &[Signature]) -> String {
+    let v: Vec<String> = sigs
+        .iter()
+        .map(|g| {
+            let k: Vec<String> = g.iter().map(|k| fmt_sk(&observe_sk(k))).collect();
+            if k.is_empty() { "-".to_string() } else { k.join("|") }
+        })
+        .collect();
+    if v.is_empty() { "-".into() } else { v.join("+") }
+}
+
+/// after an op: every `n` (uncached) sketch must report exactly the md5 the request line says, every lived
+/// sketch must show exactly the observation the request line says
 fn state_ok(specs: &[Sg], sigs: &[Signature]) -> bool {
     for (s, g) in specs.iter().zip(sigs) {
         for (k, r) in s.sketches.iter().zip(g.iter()) {
             if let Sk::Mh(m) = k {
+                if m.life.is_some() {
+                    if !same_obs(m, r) {
+                        return false;
+                    }
+                    continue;
+                }
                 let got = match r {
                     Sketch::MinHash(x) => x.md5sum(),
                     Sketch::LargeMinHash(x) => x.md5sum(),
@@ -565,7 +867,7 @@ fn step(_: &mut (), ws: &[&str]) -> String {
             match save_plain(&sigs) {
                 Ok(b) => {
                     if !state_ok(&specs, &sigs) {
-                        "bad-state".into()
+                        format!("bad-state {}", actual_state(&sigs))
                     } else if hex(&b) == ws[2] {
                         "same".into()
                     } else {
@@ -583,7 +885,7 @@ fn step(_: &mut (), ws: &[&str]) -> String {
                 Err(e) => return e,
             };
             if !state_ok(&specs, &sigs) {
-                return "bad-state".into();
+                return format!("bad-state {}", actual_state(&sigs));
             }
             match Signature::from_reader(&b[..]) {
                 Ok(l) => {
@@ -795,7 +1097,7 @@ fn rmh(r: &mut Rng, kind: char) -> Mh {
         None
     };
     let mol = r.pick(&[Mol::Dna, Mol::Dna, Mol::Protein, Mol::Dayhoff, Mol::Hp]).clone();
-    let mut m = Mh { kind, num, ksize, seed, max_hash, mol, mins, abunds, md5: String::new(), cached: false };
+    let mut m = Mh { kind, num, ksize, seed, max_hash, mol, mins, abunds, md5: String::new(), cached: false, life: None };
     match r.below(10) {
         0 => {
             // whatever a loaded file carried: stored as given
@@ -809,6 +1111,193 @@ fn rmh(r: &mut Rng, kind: char) -> Mh {
         _ => m.md5 = real_md5(&m),
     }
     m
+}
+
+
+// ---- lived sketches: histories over a small universe of hashes so that collisions, truncation by `num`
+// ---- and the `max_hash` cut happen all the time
+
+struct LifeCtx {
+    scaled: u64,
+    num: u32,
+    univ: Vec<u64>,
+}
+
+fn life_hashes(r: &mut Rng, c: &LifeCtx, lo: u64, hi: u64) -> Vec<u64> {
+    let n = r.range(lo, hi);
+    (0..n).map(|_| *r.pick(&c.univ)).collect()
+}
+fn life_abund(r: &mut Rng) -> u64 {
+    match r.below(12) {
+        0 => 0,
+        1 => (1u64 << 56) + r.below(3),
+        2 => 1,
+        _ => r.range(1, 9),
+    }
+}
+fn life_start(r: &mut Rng, c: &LifeCtx, kind: char, track: bool, top: bool) -> String {
+    // operands mostly agree with the receiver; now and then another num (merge accepts it), another
+    // scaled (merge refuses it), the other abundance mode or the other container
+    let kind = if !top && r.chance(1, 8) { if kind == 'V' { 'T' } else { 'V' } } else { kind };
+    let track = if !top && r.chance(1, 6) { !track } else { track };
+    let scaled = if !top && r.chance(1, 20) { *r.pick(&[0u64, 1, 2, 1000]) } else { c.scaled };
+    let num = if !top && c.num != 0 && r.chance(1, 5) { r.range(1, 8) as u32 } else { c.num };
+    format!("{}{}s{}n{}", kind, if track { 1 } else { 0 }, scaled, num)
+}
+fn life_ops(r: &mut Rng, c: &LifeCtx, kind: char, track: bool, depth: u32, top: bool) -> String {
+    let mut h = life_start(r, c, kind, track, top);
+    let nops = if top { r.range(2, 9) } else { r.range(1, 4) };
+    for i in 0..nops {
+        h.push('.');
+        // the first step fills the sketch most of the time
+        let pickop = if i == 0 && r.chance(3, 4) { r.below(2) * 30 } else { r.below(100) };
+        match pickop {
+            0..=24 => {
+                let l = life_hashes(r, c, 1, 6);
+                h.push_str(&format!("a{}", show_nats(l)));
+            }
+            25..=39 => {
+                let l = life_hashes(r, c, 1, 5);
+                let ps: Vec<String> = l.iter().map(|x| format!("{}x{}", x, life_abund(r))).collect();
+                h.push_str(&format!("w{}", ps.join(",")));
+            }
+            40..=41 => {
+                let x = *r.pick(&c.univ);
+                h.push_str(&format!("e{}x{}", x, life_abund(r)));
+            }
+            42..=49 => {
+                let l = life_hashes(r, c, 1, 4);
+                h.push_str(&format!("r{}", show_nats(l)));
+            }
+            50..=51 => h.push('c'),
+            52..=61 => h.push('m'),
+            62..=67 => h.push('k'),
+            68..=81 if depth > 0 => {
+                let o = life_ops(r, c, kind, track, depth - 1, false);
+                h.push_str(&format!("g({})", o));
+            }
+            82..=84 if depth > 0 => {
+                let o = life_ops(r, c, kind, track, depth - 1, false);
+                h.push_str(&format!("{}({})", r.pick(&["f", "R", "i"]), o));
+            }
+            85..=90 => h.push('l'),
+            91..=93 => h.push('j'),
+            94..=95 => h.push('x'),
+            96 => h.push('u'),
+            97 => h.push('t'),
+            98 if c.scaled != 0 => h.push_str(&format!("d{}", c.scaled * r.range(1, 3))),
+            _ => h.push('m'),
+        }
+    }
+    h
+}
+
+/// a sketch with a life: the fields are what the real code shows after running the history
+fn rlife(r: &mut Rng) -> (Mh, bool) {
+    let ksize = *r.pick(&[21u32, 31, 51, 21, 31, 7, 1, 4294967295]);
+    let seed = if r.chance(4, 5) { 42 } else { *r.pick(&[0u64, 1, u64::MAX]) };
+    let mol = r.pick(&[Mol::Dna, Mol::Dna, Mol::Protein, Mol::Dayhoff, Mol::Hp]).clone();
+    // num sketches (small, so that they fill up), scaled sketches, and the never-filled 0/0
+    let (num, scaled) = match r.below(20) {
+        0 => (0u32, 0u64),
+        1..=11 => (r.range(1, 6) as u32, 0),
+        12 => (*r.pick(&[500u32, u32::MAX]), 0),
+        13 | 14 => (0, 1),
+        15 | 16 => (0, 2),
+        17 => (0, 3),
+        _ => (0, 1000),
+    };
+    let mut univ: Vec<u64> = (0..r.range(4, 12)).map(|_| r.range(0, 40)).collect();
+    univ.extend_from_slice(&[1u64 << 63, (1u64 << 63) + 1, u64::MAX, u64::MAX / 1000, u64::MAX / 1000 + 2, (1 << 53) + 1][..r.below(7) as usize]);
+    let c = LifeCtx { scaled, num, univ };
+    let kind = if r.chance(1, 2) { 'V' } else { 'T' };
+    let track = r.chance(1, 2);
+    let life = life_ops(r, &c, kind, track, 2, true);
+    lived(&life, ksize, seed, &mol)
+}
+
+fn default_sig(sketches: Vec<Sk>) -> Sg {
+    Sg {
+        class: "sourmash_signature".into(),
+        email: "".into(),
+        hash_function: "0.murmur64".into(),
+        filename: None,
+        name: None,
+        license: "CC0".into(),
+        version: 0.4f64.to_bits(),
+        sketches,
+    }
+}
+
+/// the fields of a lived sketch, from the real code; `false` when the real code panicked on the way
+fn lived(life: &str, ksize: u32, seed: u64, mol: &Mol) -> (Mh, bool) {
+    let (l2, m2) = (life.to_string(), mol.clone());
+    match std::panic::catch_unwind(move || observe_sk(&run_life(&l2, ksize, seed, &m2).into_sketch())) {
+        Ok(Sk::Mh(mut m)) => {
+            m.life = Some(life.to_string());
+            (m, true)
+        }
+        _ => (
+            Mh { kind: 'v', num: 0, ksize, seed, max_hash: 0, mol: mol.clone(), mins: vec![], abunds: None, md5: String::new(), cached: true, life: Some(life.to_string()) },
+            false,
+        ),
+    }
+}
+
+/// `save` (when the real writer gets through) and `roundtrip` request lines for one signature
+fn emit_life_ops(o: &mut Out, g: Sg, gz: Option<u64>) {
+    let l = vec![g];
+    let s = fmt_list(&l);
+    let l2 = l.clone();
+    if let Ok(j) = std::panic::catch_unwind(move || real_json(&l2)) {
+        o.op(&format!("save {} {}", s, hex(&j)));
+    }
+    o.op(&format!("roundtrip {}", s));
+    if let Some(level) = gz {
+        o.op(&format!("gz {} {}", level, s));
+    }
+}
+
+/// short lives, enumerated: fill a sketch (to `num`, or across `max_hash`), put an md5 into its cache in one of
+/// the ways that happens (md5sum(), clone(), having been loaded), change its content, save
+fn directed_lives() -> Vec<String> {
+    let mut v = vec![];
+    for c in ["V", "T"] {
+        for t in [0, 1] {
+            let fill = |n: usize| -> String {
+                let hs = [10u64, 20, 30];
+                if t == 1 {
+                    format!(".w{}", hs[..n].iter().enumerate().map(|(i, h)| format!("{}x{}", h, i + 1)).collect::<Vec<_>>().join(","))
+                } else {
+                    format!(".a{}", show_nats(hs[..n].iter().copied()))
+                }
+            };
+            for cache in ["", ".m", ".k", ".l", ".j"] {
+                for n in 1..=3usize {
+                    let st = format!("{}{}s0n{}", c, t, n);
+                    let small = if t == 1 { ".w1x5,2x7,10x4" } else { ".a1,2" };
+                    for change in [
+                        format!(".g({}{})", st, small),
+                        format!(".g({}.a10)", st),
+                        format!(".g({}{}s0n{}{})", c, 1 - t, n, if t == 0 { ".w1x5,2x7,10x4" } else { ".a1,2" }),
+                        format!(".f({}{})", st, small),
+                        ".a5".to_string(),
+                        ".w5x3,10x2".to_string(),
+                        ".r10".to_string(),
+                        ".c.a7".to_string(),
+                    ] {
+                        v.push(format!("{}{}{}{}", st, fill(n), cache, change));
+                    }
+                }
+                // scaled = 2: max_hash = 2^63
+                let st = format!("{}{}s2n0", c, t);
+                for change in [format!(".g({}.a3,9223372036854775808,18446744073709551615)", st), ".a3,9223372036854775809".to_string(), ".r10.d4".to_string()] {
+                    v.push(format!("{}{}{}{}", st, fill(2), cache, change));
+                }
+            }
+        }
+    }
+    v
 }
 
 fn rhll(r: &mut Rng) -> Sk {
@@ -828,6 +1317,11 @@ fn rsig(r: &mut Rng, hll: bool) -> Sg {
         .map(|_| {
             if hll && r.chance(1, 8) {
                 rhll(r)
+            } else if r.chance(1, 5) {
+                match rlife(r) {
+                    (m, true) => Sk::Mh(m),
+                    _ => Sk::Mh(rmh(r, 'v')),
+                }
             } else {
                 let kind = if r.chance(1, 2) { 'v' } else { 't' };
                 Sk::Mh(rmh(r, kind))
@@ -1139,6 +1633,12 @@ fn gen(a: &Args) {
     let thorough = a.tier == "thorough";
     let mult = if thorough { 12 } else { 1 };
 
+    // stream 0: short enumerated lives (the same under every seed), default signature around them
+    for (i, life) in directed_lives().iter().enumerate() {
+        o.case("life-directed");
+        let (m, _) = lived(life, 21, 42, &Mol::Dna);
+        emit_life_ops(&mut o, default_sig(vec![Sk::Mh(m)]), if i % 16 == 0 { Some((i as u64 / 16) % 10) } else { None });
+    }
     // stream 1: save / roundtrip / gz of one signature (0-5 sketches, both containers, HLL)
     for i in 0..900 * mult {
         o.case("one");
@@ -1178,7 +1678,7 @@ fn gen(a: &Args) {
         for s in l.iter_mut() {
             for k in s.sketches.iter_mut() {
                 if let Sk::Mh(m) = k {
-                    if r.chance(5, 6) {
+                    if m.life.is_none() && r.chance(5, 6) {
                         m.ksize = *r.pick(&ks);
                         if !m.cached || r.chance(1, 2) {
                             m.md5 = real_md5(m);
@@ -1229,6 +1729,16 @@ fn gen(a: &Args) {
         jprint(&mut r, &j, false, &mut t);
         o.op(&format!("loadvec {}", hex(t.as_bytes())));
         o.op(&format!("loadtree {}", hex(t.as_bytes())));
+    }
+    // stream 6: sketches with a life (built by add / remove / clear / merge / md5sum / clone / reload …),
+    // saved, looked at by the independent reader, loaded back
+    for i in 0..1500 * mult {
+        o.case("life");
+        let nsk = if r.chance(3, 4) { 1 } else { 2 };
+        let mut g = rsig(&mut r, false);
+        g.sketches = (0..nsk).map(|_| Sk::Mh(rlife(&mut r).0)).collect();
+        let gz = if i % 5 == 0 { Some(r.range(0, 9)) } else { None };
+        emit_life_ops(&mut o, g, gz);
     }
     // stream 5: the bundled signature files
     let files = data_files();
@@ -1345,6 +1855,14 @@ fn main() {
         "gen" => gen(&a),
         "exec" => exec_loop(|| (), step),
         "dump" => dump(),
+        // `c06 mklife <ksize> <seed> <mol> <life>…`: request lines for one default signature holding these lives
+        "mklife" => {
+            let w: Vec<String> = std::env::args().skip(2).collect();
+            let (ksize, seed, mol) = (w[0].parse().unwrap(), w[1].parse().unwrap(), parse_mol(&w[2]));
+            let sk = w[3..].iter().map(|l| Sk::Mh(lived(l, ksize, seed, &mol).0)).collect();
+            let mut o = Out::new();
+            emit_life_ops(&mut o, default_sig(sk), None);
+        }
         _ => panic!("mode"),
     }
 }
